@@ -1,6 +1,9 @@
 /-
-C12, the invariant of the concurrency model (Conc.lean): the shared cache is `Sound`, and every thread has received good
-answers for the `get`s it performed (`ThreadOK`).  One step of any thread preserves it; hence every schedule does.
+C12, the invariant of the concurrency model (Conc.lean): the shared cache is `Sound`, and every thread has performed a prefix
+of its own operations (`get` / `store` / `remove`) and has received good answers for the `get`s it performed (`ThreadOK`).
+One step of any thread preserves it, and so does every metadata-only write of the environment (any key, any status, at any
+time: the cache stays `Sound`, so whatever the environment does between two steps of a thread, the answers the thread receives
+later are good); hence every schedule of thread steps and environment writes does.
 `ExtPrefix` (more answers only extend the trace; proved in ConcO4.lean) is a hypothesis of the step lemmas here.
 -/
 import LiquerProofs.Lemmas.ConcO3
@@ -15,12 +18,16 @@ def ExtPrefix (env : Env) : Prop :=
 /-- the trace of the thread's evaluation against the answers received so far -/
 def Thread.trace (env : Env) (t : Thread) : List COp := (t.run env).1.trace
 
+/-- the thread's own operations (everything but the progress-metadata writes) against the answers received so far -/
+def Thread.own (env : Env) (t : Thread) : List COp := ownOps (t.trace env)
+
 /-- what is known about a thread at every moment -/
 structure ThreadOK (env : Env) (C : Query → Prop) (t : Thread) : Prop where
   inC : C t.q
-  done_le : t.done ≤ (t.trace env).length
+  /-- the thread has performed a prefix of its own (`get` / `store` / `remove`) operations -/
+  done_le : t.done ≤ (t.own env).length
   /-- the answers received are those of the `get`s performed -/
-  cnt : (gets ((t.trace env).take t.done)).length = t.answers.length
+  cnt : (gets ((t.own env).take t.done)).length = t.answers.length
   /-- … and each is good for the key it was asked for -/
   good : GoodPairs env (t.trace env) t.answers
   /-- a result is the outcome of a run that did not starve -/
@@ -62,32 +69,37 @@ theorem take_succ_of_getElem? {α : Type} {l : List α} {n : Nat} {a : α} (h : 
     l.take (n+1) = l.take n ++ [a] := by
   rw [List.take_add_one, h]; rfl
 
-/-! ### progress writes -/
+/-! ### own operations -/
 
-theorem flushMetas_ok {env : Env} {C : Query → Prop} {shared : World} {t : Thread} (hS : Sound env shared)
-    (ok : ThreadOK env C t) :
-    Sound env (flushMetas env shared t).1 ∧ ThreadOK env C (flushMetas env shared t).2 := by
-  unfold flushMetas
-  simp only
-  have hm : ∀ op ∈ (((t.run env).1.trace.drop t.done).takeWhile COp.isMeta), op.isMeta = true :=
-    fun op hop => List.all_eq_true.1 List.all_takeWhile op hop
-  have hf := foldl_metas (env := env) _ hm (shared, t.answers) hS
-  refine ⟨hf.1, ?_⟩
-  have hpre : ((t.run env).1.trace.drop t.done).takeWhile COp.isMeta <+: (t.run env).1.trace.drop t.done :=
-    List.takeWhile_prefix _
-  have hlen : (((t.run env).1.trace.drop t.done).takeWhile COp.isMeta).length ≤ (t.run env).1.trace.length - t.done := by
-    have := hpre.length_le; simpa using this
-  have hle := ok.done_le
-  unfold Thread.trace at hle
-  exact {
-    inC := ok.inC
-    done_le := by show t.done + _ ≤ (t.run env).1.trace.length; omega
-    cnt := by
-      show (gets ((t.run env).1.trace.take (t.done + _))).length = t.answers.length
-      rw [List.take_add, gets_append, ← List.prefix_iff_eq_take.1 hpre, gets_eq_nil_of_meta hm]
-      simpa [Thread.trace] using ok.cnt
-    good := ok.good
-    res := ok.res }
+theorem ownOps_append (a b : List COp) : ownOps (a ++ b) = ownOps a ++ ownOps b := by
+  simp [ownOps]
+
+/-- the `get`s of a trace are among its own operations -/
+theorem gets_ownOps (tr : List COp) : gets (ownOps tr) = gets tr := by
+  induction tr with
+  | nil => rfl
+  | cons op tr ih =>
+    have h1 : gets (op :: tr) = gets [op] ++ gets tr := by rw [← gets_append]; rfl
+    cases op with
+    | storeMeta k x =>
+      have : ownOps (.storeMeta k x :: tr) = ownOps tr := by simp [ownOps, COp.isMeta]
+      rw [this, ih, h1]; simp
+    | get k =>
+      have : ownOps (.get k :: tr) = .get k :: ownOps tr := by simp [ownOps, COp.isMeta]
+      rw [this, h1, ← ih]; rfl
+    | store st =>
+      have : ownOps (.store st :: tr) = .store st :: ownOps tr := by simp [ownOps, COp.isMeta]
+      rw [this, h1, ← ih]; rfl
+    | remove k =>
+      have : ownOps (.remove k :: tr) = .remove k :: ownOps tr := by simp [ownOps, COp.isMeta]
+      rw [this, h1, ← ih]; rfl
+
+theorem mem_of_mem_ownOps {tr : List COp} {op : COp} (h : op ∈ ownOps tr) : op ∈ tr :=
+  (List.mem_filter.1 h).1
+
+theorem not_meta_of_mem_ownOps {tr : List COp} {op : COp} (h : op ∈ ownOps tr) : op.isMeta = false := by
+  have := (List.mem_filter.1 h).2
+  simpa using this
 
 /-! ### one step of a thread -/
 
@@ -108,17 +120,18 @@ theorem stepThread_ok {env : Env} {C : Query → Prop} {T : Str → Prop} (hC : 
     have hcnt := ok.cnt
     have hgood := ok.good
     have hSG := ok.storesGood hC hcanon
-    unfold Thread.trace at hle hcnt hgood hSG
+    unfold Thread.own Thread.trace at hle hcnt
+    unfold Thread.trace at hgood hSG
     rcases hrun : t.run env with ⟨ow, out⟩
     rw [hrun] at hW hle hcnt hgood hSG
     simp only at hW hle hcnt hgood hSG ⊢
-    cases hop : ow.trace[t.done]? with
+    cases hop : (ownOps ow.trace)[t.done]? with
     | none =>
       simp only
       refine ⟨hS, ?_⟩
-      have hge : ow.trace.length ≤ t.done := by simpa using hop
-      have hall : ow.trace.take t.done = ow.trace := List.take_of_length_le hge
-      rw [hall] at hcnt
+      have hge : (ownOps ow.trace).length ≤ t.done := by simpa using hop
+      have hall : (ownOps ow.trace).take t.done = ownOps ow.trace := List.take_of_length_le hge
+      rw [hall, gets_ownOps] at hcnt
       have hns : ow.starved = false := by
         cases h : ow.starved
         · rfl
@@ -135,37 +148,39 @@ theorem stepThread_ok {env : Env} {C : Query → Prop} {T : Str → Prop} (hC : 
           rw [hrun]; exact ⟨hns, rfl⟩ }
     | some op =>
       simp only
-      have hlt : t.done < ow.trace.length := by
+      have hlt : t.done < (ownOps ow.trace).length := by
         rcases List.getElem?_eq_some_iff.1 hop with ⟨h, _⟩; exact h
-      have hmem : op ∈ ow.trace := List.mem_of_getElem? hop
+      have hmemO : op ∈ ownOps ow.trace := List.mem_of_getElem? hop
+      have hmem : op ∈ ow.trace := mem_of_mem_ownOps hmemO
       have htake := take_succ_of_getElem? hop
       cases op with
       | get k =>
         simp only [applyOp_get]
         -- the thread receives the answer of the shared cache
-        have hgk : (gets (ow.trace.take (t.done + 1))).length = t.answers.length + 1 := by
+        have hgk : (gets ((ownOps ow.trace).take (t.done + 1))).length = t.answers.length + 1 := by
           rw [htake, gets_append]; simp [hcnt]
-        have hpre1 : gets (ow.trace.take (t.done + 1)) <+: gets ow.trace := gets_prefix (List.take_prefix _ _)
+        have hpre1 : gets ((ownOps ow.trace).take (t.done + 1)) <+: gets ow.trace := by
+          rw [← gets_ownOps ow.trace]; exact gets_prefix (List.take_prefix _ _)
         have hextp := hext (evalFuel t.raw) t.answers [shared.get k] t.q t.raw
         have hrun' : evalQO env (evalFuel t.raw) { answers := t.answers } t.q t.raw .none none true = (ow, out) := hrun
         rw [hrun'] at hextp
         simp only at hextp
-        refine flushMetas_ok hS ?_
+        refine ⟨hS, ?_⟩
         obtain ⟨c, hc⟩ := hextp
         exact {
           inC := ok.inC
           done_le := by
-            show t.done + 1 ≤ (evalQO env (evalFuel t.raw) { answers := t.answers ++ [shared.get k] } t.q t.raw .none none true).1.trace.length
-            rw [← hc]; simp; omega
+            show t.done + 1 ≤ (ownOps (evalQO env (evalFuel t.raw) { answers := t.answers ++ [shared.get k] } t.q t.raw .none none true).1.trace).length
+            rw [← hc, ownOps_append]; simp; omega
           cnt := by
-            show (gets ((evalQO env (evalFuel t.raw) { answers := t.answers ++ [shared.get k] } t.q t.raw .none none true).1.trace.take (t.done + 1))).length = (t.answers ++ [shared.get k]).length
-            rw [← hc, List.take_append_of_le_length (by omega), hgk]; simp
+            show (gets ((ownOps (evalQO env (evalFuel t.raw) { answers := t.answers ++ [shared.get k] } t.q t.raw .none none true).1.trace).take (t.done + 1))).length = (t.answers ++ [shared.get k]).length
+            rw [← hc, ownOps_append, List.take_append_of_le_length (by omega), hgk]; simp
           good := by
             show GoodPairs env (evalQO env (evalFuel t.raw) { answers := t.answers ++ [shared.get k] } t.q t.raw .none none true).1.trace (t.answers ++ [shared.get k])
             rw [← hc]
             intro i ki ai hki hai
             -- the first `|answers| + 1` keys asked are those of the old trace
-            have hG : gets (ow.trace.take (t.done + 1)) <+: gets (ow.trace ++ c) :=
+            have hG : gets ((ownOps ow.trace).take (t.done + 1)) <+: gets (ow.trace ++ c) :=
               hpre1.trans (gets_prefix (List.prefix_append _ _))
             obtain ⟨c2, hc2⟩ := hG
             have hi : i < t.answers.length + 1 := by
@@ -175,7 +190,9 @@ theorem stepThread_ok {env : Env} {C : Query → Prop} {T : Str → Prop} (hC : 
             · rw [List.getElem?_append_left hia] at hai
               rw [List.getElem?_append_left (by omega)] at hki
               refine hgood i ki ai ?_ hai
-              obtain ⟨c3, hc3⟩ := gets_prefix (List.take_prefix t.done ow.trace)
+              have hp0 : gets ((ownOps ow.trace).take t.done) <+: gets ow.trace := by
+                rw [← gets_ownOps ow.trace]; exact gets_prefix (List.take_prefix _ _)
+              obtain ⟨c3, hc3⟩ := hp0
               rw [← hc3, List.getElem?_append_left (by omega)]; exact hki
             · have hie : i = t.answers.length := by omega
               subst hie
@@ -185,35 +202,27 @@ theorem stepThread_ok {env : Env} {C : Query → Prop} {T : Str → Prop} (hC : 
               exact hS.get_good _
           res := fun o ho => by rw [show ({ t with answers := t.answers ++ [shared.get k], done := t.done + 1 } : Thread).result = t.result from rfl, hres] at ho; simp at ho }
       | storeMeta k x =>
-        simp only [applyOp_storeMeta]
-        refine flushMetas_ok (hS.storeMeta k x) ?_
-        exact {
-          inC := ok.inC
-          done_le := by show t.done + 1 ≤ (t.run env).1.trace.length; rw [hrun]; exact hlt
-          cnt := by
-            show (gets ((t.run env).1.trace.take (t.done + 1))).length = t.answers.length
-            rw [hrun]; simp only; rw [htake, gets_append]; simpa using hcnt
-          good := ok.good
-          res := ok.res }
+        have := not_meta_of_mem_ownOps hmemO
+        simp [COp.isMeta] at this
       | store st =>
         simp only [applyOp_store]
-        refine flushMetas_ok (hS.store st (hSG _ hmem)) ?_
+        refine ⟨hS.store st (hSG _ hmem), ?_⟩
         exact {
           inC := ok.inC
-          done_le := by show t.done + 1 ≤ (t.run env).1.trace.length; rw [hrun]; exact hlt
+          done_le := by show t.done + 1 ≤ (ownOps (t.run env).1.trace).length; rw [hrun]; exact hlt
           cnt := by
-            show (gets ((t.run env).1.trace.take (t.done + 1))).length = t.answers.length
+            show (gets ((ownOps (t.run env).1.trace).take (t.done + 1))).length = t.answers.length
             rw [hrun]; simp only; rw [htake, gets_append]; simpa using hcnt
           good := ok.good
           res := ok.res }
       | remove k =>
         simp only [applyOp_remove]
-        refine flushMetas_ok (hS.remove k) ?_
+        refine ⟨hS.remove k, ?_⟩
         exact {
           inC := ok.inC
-          done_le := by show t.done + 1 ≤ (t.run env).1.trace.length; rw [hrun]; exact hlt
+          done_le := by show t.done + 1 ≤ (ownOps (t.run env).1.trace).length; rw [hrun]; exact hlt
           cnt := by
-            show (gets ((t.run env).1.trace.take (t.done + 1))).length = t.answers.length
+            show (gets ((ownOps (t.run env).1.trace).take (t.done + 1))).length = t.answers.length
             rw [hrun]; simp only; rw [htake, gets_append]; simpa using hcnt
           good := ok.good
           res := ok.res }
@@ -245,25 +254,13 @@ theorem stepAt_inv {env : Env} {C : Query → Prop} {T : Str → Prop} (hC : Clo
     · exact h.2 t' h1
     · rw [h1]; exact this.2
 
-theorem startAll_inv {env : Env} {C : Query → Prop} {c : Config} (h : Inv env C c) : Inv env C (startAll env c) := by
-  unfold startAll
-  generalize List.range c.threads.length = is
-  induction is generalizing c with
-  | nil => exact h
-  | cons i is ih =>
-    simp only [List.foldl_cons]
-    apply ih
-    split
-    · exact h
-    · next t ht =>
-      have hmem : t ∈ c.threads := List.mem_of_getElem? ht
-      have := flushMetas_ok h.1 (h.2 t hmem)
-      refine ⟨this.1, fun t' ht' => ?_⟩
-      rcases List.mem_or_eq_of_mem_set ht' with h1 | h1
-      · exact h.2 t' h1
-      · rw [h1]; exact this.2
+/-- an environment step — anybody writes metadata for any key with any status — keeps the invariant: a metadata write never
+creates data (the shared cache stays `Sound`) and the threads are untouched -/
+theorem envMeta_inv {env : Env} {C : Query → Prop} {c : Config} (h : Inv env C c) (k status : Str) :
+    Inv env C (envMeta c k status) :=
+  ⟨h.1.storeMeta k status, h.2⟩
 
-/-- reachability under `StepAny`: all schedules of any length -/
+/-- reachability under `StepAny`: all schedules of any length, interleaved with arbitrary metadata writes of the environment -/
 inductive Reach (env : Env) : Config → Config → Prop where
   | refl (c : Config) : Reach env c c
   | tail {a b c : Config} : Reach env a b → StepAny env b c → Reach env a c
@@ -276,6 +273,17 @@ theorem Reach.inv {env : Env} {C : Query → Prop} {T : Str → Prop} (hC : Clos
   | tail _ hs ih =>
     cases hs with
     | step i hi => exact stepAt_inv hC hcanon hext ih i
+    | env k status => exact envMeta_inv ih k status
+
+theorem runEvents_inv {env : Env} {C : Query → Prop} {T : Str → Prop} (hC : Closed env C T)
+    (hcanon : ∀ q, C q → CanonOK env q) (hext : ExtPrefix env) (evs : List Ev) {c : Config} (h : Inv env C c) :
+    Inv env C (runEvents env c evs) := by
+  induction evs generalizing c with
+  | nil => exact h
+  | cons e rest ih =>
+    cases e with
+    | thread i => exact ih (stepAt_inv hC hcanon hext h i)
+    | meta_ k status => exact ih (envMeta_inv h k status)
 
 theorem runSchedule_inv {env : Env} {C : Query → Prop} {T : Str → Prop} (hC : Closed env C T)
     (hcanon : ∀ q, C q → CanonOK env q) (hext : ExtPrefix env) (sched : List Nat) {c : Config} (h : Inv env C c) :
@@ -303,6 +311,23 @@ theorem Reach.step {env : Env} {a b : Config} (h : Reach env a b) (i : Nat) : Re
       unfold stepAt
       rw [List.getElem?_eq_none (by omega)]
     rw [this]; exact h
+
+theorem Reach.envMeta {env : Env} {a b : Config} (h : Reach env a b) (k status : Str) :
+    Reach env a (envMeta b k status) := Reach.tail h (StepAny.env b k status)
+
+theorem Reach.runEvents {env : Env} (evs : List Ev) {a b : Config} (h : Reach env a b) :
+    Reach env a (runEvents env b evs) := by
+  induction evs generalizing b with
+  | nil => exact h
+  | cons e rest ih =>
+    cases e with
+    | thread i => exact ih (h.step i)
+    | meta_ k status => exact ih (h.envMeta k status)
+
+theorem Reach.trans {env : Env} {a b c : Config} (h1 : Reach env a b) (h2 : Reach env b c) : Reach env a c := by
+  induction h2 with
+  | refl => exact h1
+  | tail _ hs ih => exact Reach.tail ih hs
 
 theorem Reach.runSchedule {env : Env} (sched : List Nat) {a b : Config} (h : Reach env a b) :
     Reach env a (runSchedule env b sched) := by
